@@ -52,12 +52,19 @@ class LoopProp(Prop):
     budget = 5     # fewer than the retry budget (6) of losses
 
     def chunk_of(self, line):
-        return hash(line) & 0xffff
+        t = line.split(" ")
+        if t[0] in ("timing", "req", "multi", "abort", "storm"):
+            # server-level lines share a sandbox tree per root: all lines of one root go to one harness process
+            return sum(bytes.fromhex(t[1])) & 0xffff
+        return sum(line.encode()) & 0xffff
 
     def nontrivial(self, line, impl):
-        return impl.startswith("s=")
+        return impl.startswith("s=") or line.startswith("timing ")
 
     def classify(self, line, impl, res):
+        if line.startswith("timing "):
+            res.count("server-level-retransmission:" + impl[:40])
+            return
         if not line.startswith("loop "):
             return
         c = parse_loop(line)
@@ -68,6 +75,9 @@ class LoopProp(Prop):
             res.count("outcome:s=%s,r=%s" % (o.get("s"), o.get("r")))
 
     def oracle(self, line, impl):
+        if line.startswith("timing "):
+            from .p_server import C09
+            return C09.timing_oracle(self, line, impl)
         if not line.startswith("loop "):
             return None
         o = parse_obs(impl)
@@ -189,6 +199,13 @@ class C04(LoopProp):
             ua = rng.sample(range(nb + 8), rng.randint(0, 3))
             lines.append(loop_line(bb, 1, 5000, 1, "gen:%d:%d" % (flen, rng.randint(0, 255)), dd, ud, da, ua))
         lines += wrap_loop_lines(tier, rng)
+        # through the server, in real time: a peer that falls silent after DATA 1 (its ACK "lost") sees DATA 1 again after the retransmission
+        # interval - also when no timeout option was negotiated (default 5 s), in both port modes
+        from .p_server import rq
+        for k, flags in enumerate(["-", "s"]):
+            root = (self.sandbox + "/k%d" % k).encode().hex()
+            lines.append("timing %s %s srv/f=gen:20:1 %s first" % (root, flags, rq("rrq", b"f", (("blksize", 8),)).hex()))
+            lines.append("timing %s %s srv/f=gen:20:1 %s first" % (root, flags, rq("rrq", b"f", (("tsize", 0), ("timeout", 1))).hex()))
         # the same datagram lost six times in a row: beyond the budget, must end (no livelock)
         lines.append(loop_line(8, 1, 5000, 1, "gen:20:1", dd=[1, 2, 3, 4, 5, 6]))
         return list(dict.fromkeys(lines))
@@ -381,6 +398,8 @@ class C14(LoopProp):
         for mode in ["multi", "single"]:
             cases.append((mode, "127.0.0.1", "up", 512, 1, 5, 700, "sub/"))
             cases.append((mode, "127.0.0.1", "down", 512, 1, 5, 700, "sub/f.bin"))
+        # directed: the file named on the command line is a symbolic link - it is uploaded under the name the user gave
+        cases.append(("multi", "127.0.0.1", "up", 512, 1, 5, 900, "@link"))
         if tier == "thorough":
             for w in (8, 64):
                 cases.append(("multi", "127.0.0.1", "down", 8, w, 1, 8 * 65537 + 3, "f.bin"))
@@ -431,10 +450,20 @@ class C14(LoopProp):
                         elif others:
                             viol.append((desc, "extra files %s" % others, "download stored under a wrong name", "download-name"))
                     else:
-                        rel = name + "up-%d.bin" % size          # name is "" or "sub/" for uploads
-                        local = os.path.join(cdir, rel)
-                        with open(local, "wb") as fh:
-                            fh.write(data)
+                        if name == "@link":
+                            with open(os.path.join(cdir, "real-target-%d.bin" % size), "wb") as fh:
+                                fh.write(data)
+                            rel = "link-%d.bin" % size
+                            local = os.path.join(cdir, rel)
+                            os.symlink("real-target-%d.bin" % size, local)
+                            wrong = os.path.join(sdir, "real-target-%d.bin" % size)
+                            if os.path.exists(wrong):
+                                os.remove(wrong)
+                        else:
+                            rel = name + "up-%d.bin" % size          # name is "" or "sub/" for uploads
+                            local = os.path.join(cdir, rel)
+                            with open(local, "wb") as fh:
+                                fh.write(data)
                         target = os.path.join(sdir, os.path.basename(local))
                         stray = os.path.join(sdir, rel)
                         for old in {target, stray}:
@@ -455,6 +484,8 @@ class C14(LoopProp):
                                          "upload does not leave a byte-identical file under its basename in the receive directory", "upload-differs"))
                         elif stray != target and os.path.exists(stray):
                             viol.append((desc, "also stored as %s" % rel, "upload stored under a name other than its basename", "upload-name"))
+                        elif name == "@link" and os.path.exists(os.path.join(sdir, "real-target-%d.bin" % size)):
+                            viol.append((desc, "stored as real-target-%d.bin" % size, "upload of a symbolic link stored under the name of its target", "upload-name"))
                 except subprocess.TimeoutExpired:
                     viol.append((desc, "timeout", "client did not finish within 120 s", "client-hangs"))
                 ran += 1
